@@ -17,6 +17,8 @@ use std::task::{Context, Poll};
 pub struct ChunkBody {
     chunks: VecDeque<Bytes>,
     yielded: bool,
+    /// report no size hint (a streamed body of unknown length: chunked encoding on HTTP/1.1)
+    unknown_len: bool,
 }
 
 impl ChunkBody {
@@ -24,13 +26,20 @@ impl ChunkBody {
         ChunkBody {
             chunks: chunks.iter().map(|c| Bytes::copy_from_slice(c)).collect(),
             yielded: false,
+            unknown_len: false,
         }
     }
     pub fn from_vecs(chunks: Vec<Vec<u8>>) -> Self {
         ChunkBody {
             chunks: chunks.into_iter().map(Bytes::from).collect(),
             yielded: false,
+            unknown_len: false,
         }
+    }
+    /// The same chunks, but the body does not know its length in advance.
+    pub fn unsized_len(mut self) -> Self {
+        self.unknown_len = true;
+        self
     }
 }
 
@@ -53,6 +62,9 @@ impl http_body::Body for ChunkBody {
         self.chunks.is_empty()
     }
     fn size_hint(&self) -> http_body::SizeHint {
+        if self.unknown_len {
+            return http_body::SizeHint::default();
+        }
         let n: usize = self.chunks.iter().map(|c| c.len()).sum();
         http_body::SizeHint::with_exact(n as u64)
     }
